@@ -96,7 +96,10 @@ pub struct IcmpIn {
 }
 
 fn icmp_in_view(d: &downstream::IcmpDatagram) -> IcmpIn {
-    let echo = d.message.to_echo().expect("decoder yields echo requests only");
+    let echo = d
+        .message
+        .to_echo()
+        .expect("decoder yields echo requests only");
     IcmpIn {
         peer: d.meta.peer,
         is_v6_message: matches!(d.message, icmp_utils::Message::V6(_)),
